@@ -163,6 +163,9 @@ def run(tier, seed):
     arrayhist.run_family(run, 'C13', tier, seed, 'meta')
     from .. import tracecheck
     tracecheck.run_random(run, 'C13', 2000 if tier == 'thorough' else 120, 60 if tier == 'thorough' else 40, seed)
+    if True:   # the metadata tests of the repository are cheap to record
+        from .. import testtrace
+        testtrace.run_repo_tests(run, 'C13')
     ragged_metadata(run, tier, seed)
     creation_cases(run, seed)
     run.cov['rule'] = ('Array: every metadata macro-edge of the TLC graph of spec/Array.tla (update, setitem, empty update, '
